@@ -644,7 +644,7 @@ async fn e2e(net: Net, seed: u64, n: usize, long: bool, full: bool) {
     let mut rng = StdRng::seed_from_u64(seed);
     let v6net = seed % 3 == 2;
     net.with(|nn| { nn.rec.projection = !full; nn.faults.max_latency_ms = 1000; });
-    net.log(json!({"ev":"Scenario","coop":false,"kind":"e2e"}));
+    net.log(json!({"ev":"Scenario","coop":false,"kind":"e2e","projection":!full}));
     let addrs: Vec<SocketAddr> = (0..n).map(|i| if v6net { v6(100 + i as u16, 7000 + i as u16) } else { v4(10, 0, 1, i as u8 + 1, 7000 + i as u16) }).collect();
     // ids: random, or adversarial (all in one bucket of each other / differing only in the last bits)
     let base = rand_id(&mut rng);
